@@ -207,3 +207,28 @@ def housekeeping_relookup(ctx, R, rule_id):
             hk.loc(bad) if bad is not None else hk.loc(),
             "`%s` deletes an entry that was read from an earlier snapshot: a stream already removed (by the other clean-up pass or a request thread) raises KeyError, which ends the "
             "multiplex request loop / the housekeeper thread" % (unparse(bad, 60) if bad is not None else ""))
+
+
+def names_bound(ctx, R, rule_id, modules, consequence):
+    """one instance per module: every name that is read is bound somewhere (engine.dataflow.unbound_names; the compiler's own symbol tables, no path reasoning). A read
+    of a name that nothing binds raises NameError where the code meant to do something else - typically in a rarely taken branch (error message built from a variable
+    whose assignment was dropped or renamed)"""
+    import ast as _ast
+    from ..engine.dataflow import unbound_names
+    for mn in sorted(modules):
+        mod = ctx.p.modules.get(mn)
+        if mod is None:
+            raise AnalysisError("module %s vanished" % mn)
+        ub = unbound_names(mod.source, mod.relpath)
+        if ub is None:
+            R.note("%s uses `import *`: unbound names cannot be decided there" % mn)
+            continue
+        where = mod.relpath
+        if ub:
+            nm, sline, sname = ub[0]
+            raw = _ast.parse(mod.source)
+            uses = sorted(n.lineno for n in _ast.walk(raw) if isinstance(n, _ast.Name) and n.id == nm and isinstance(n.ctx, _ast.Load) and n.lineno >= (sline or 0))
+            where = "%s:%d" % (mod.relpath, uses[0] if uses else (sline or 1))
+        R.check(not ub, rule_id, "module|%s|every-name-read-is-bound" % mn, "no name in this module is read without being bound somewhere (symbol tables of the compiler)", where,
+                ("`%s` is read in %s but nothing binds it (no assignment, parameter, import or definition, not a builtin): reaching that read raises NameError - %s"
+                 % (ub[0][0], ub[0][2], consequence)) if ub else "")
